@@ -1,5 +1,6 @@
 import I2N.Lemmas.Index
 import I2N.Lemmas.Register
+import I2N.Lemmas.GenIndex
 /-!
 # C16 — Name lookups and visit counters are exact
 
@@ -170,5 +171,121 @@ example : getCounters (registerAll [("n", "net1"), ("n", "net2"), ("n", "net1"),
 example : (allPairs [0, 1, 2] { regOf := [], bridged := [] }).isBridged 1 2 = true := by decide
 example : (([0, 1, 2].foldl arrive ({ regOf := [], bridged := [] }, [])).1.reg 0
     = ([0, 1, 2].foldl arrive ({ regOf := [], bridged := [] }, [])).1.reg 2) := by decide
+
+/-! ## Translator tie: the hand model of the edge registers equals the code's current source
+
+`I2N/Extracted/GenIndex.lean` is regenerated on every run from the source of `EdgeRegister.register`,
+`get_counters`, `get_workers` (harness/pygen_pxindex.py).  The source keeps a dict of dicts
+(`I2N.PyDict.PyReg`: node key ↦ worker key ↦ counter, insertion ordered), the hand model a flat association list
+keyed by the pair; the ADAPTER is `I2N.Index.flat` (concatenation of the inner dictionaries in dictionary order,
+counters as naturals).  Hypothesis of all three: `RegWF r` — what a Python dict guarantees by construction (no node
+key twice, no worker key twice inside a node) and that no counter is negative; it is decidable, holds for the empty
+registry and is preserved by the source's `register` (part of `register_matches_source`), so it holds for every
+registry the code can build.  It excludes only lists that are not dictionaries. -/
+
+open I2N.PyDict I2N.Extracted.GenIndex
+
+/-- `EdgeRegister.register` (generated from the source) never raises on a well-formed registry, keeps it well
+formed, and its effect seen through the adapter is the model's `register` — the same entries with the same counters
+(a permutation: the source files a new worker of a known node inside that node's dictionary, the model appends the
+pair at the end; neither `getCounters` nor `getWorkers` observes the order, see `getCounters_perm`). -/
+theorem register_matches_source (r : PyReg) (h : RegWF r) (n w : String) :
+    ∃ r', (genRegister n w).run r = .ok ((), r') ∧ RegWF r' ∧ (flat r').Perm (register (flat r) n w) :=
+  ⟨regStep r n w, genRegister_run r n w, regWF_regStep r h n w, flat_regStep_perm r h n w⟩
+
+/-- `EdgeRegister.get_counters` (generated from the source) returns the model's `getCounters` of the adapter's image,
+for all four argument shapes (`none` = argument omitted / `None`). -/
+theorem getCounters_matches_source (r : PyReg) (h : RegWF r) (node worker : Option String) :
+    genGetCounters r node worker = (getCounters (flat r) node worker : Int) := by
+  rw [getCounters_flat r h node worker]
+  unfold genGetCounters
+  simp only [Id.run, pure]
+  rw [← keys_nodeSel r node]
+  have hg := nodeSel_getD r h.1 node
+  rw [foldl_foldl_add_eq (keys (nodeSel r node))
+    (fun nk => if worker.isSome = true then [worker.getD ""] else keys (getD r nk []))
+    (fun nk wk => getD (getD r nk []) wk 0) 0]
+  simp only [Int.zero_add, keys, List.map_map]
+  congr 1
+  apply List.map_congr_left
+  intro e he
+  simp only [Function.comp]
+  rw [hg e he]
+  cases worker <;> simp [workerSel, keys]
+
+/-- `EdgeRegister.get_workers` (generated from the source) returns, as a set, the model's `getWorkers` of the adapter's
+image (the Python value is a `set`: only membership is compared; the model's list is duplicate free by
+`workers_each_once`). -/
+theorem getWorkers_matches_source (r : PyReg) (h : RegWF r) (node : Option String) (w : String) :
+    w ∈ genGetWorkers r node ↔ w ∈ getWorkers (flat r) node := by
+  rw [getWorkers_flat r h.1 node, mem_dedup, mem_workers_flat]
+  unfold genGetWorkers
+  simp only [Id.run, pure]
+  rw [← keys_nodeSel r node, mem_foldl_append]
+  have hg := nodeSel_getD r h.1 node
+  simp only [List.not_mem_nil, false_or, keys, List.mem_map]
+  constructor
+  · rintro ⟨nk, ⟨e, he, rfl⟩, hw⟩
+    exact ⟨e, he, by rw [hg e he] at hw; exact hw⟩
+  · rintro ⟨e, he, hw⟩
+    exact ⟨e.1, ⟨e, he, rfl⟩, by rw [hg e he]; exact hw⟩
+
+/-- the source's `register` run over a list of visits, from a registry `r` -/
+def genRegisterAll : List (String × String) → RegM Unit
+  | [] => pure ()
+  | op :: rest => do genRegister op.1 op.2; genRegisterAll rest
+
+/-- END TO END, on the source itself: after any sequence of `register` calls on a fresh `EdgeRegister` (any number, any
+nodes and workers) no call raised, `get_counters` returns exactly the number of matching visits and `get_workers`
+exactly the workers that visited — `counters_exact` / `workers_exact` transported along the three equalities above. -/
+theorem source_counters_exact (ops : List (String × String)) :
+    ∃ r, (genRegisterAll ops).run [] = .ok ((), r) ∧ RegWF r ∧
+      (∀ node worker, genGetCounters r node worker = ((ops.filter (keyMatches node worker)).length : Int)) ∧
+      (∀ node w, w ∈ genGetWorkers r node ↔ ∃ op ∈ ops, keyMatches node none op = true ∧ op.2 = w) := by
+  suffices hgen : ∀ (ops : List (String × String)) (r0 : PyReg) (m0 : Register), RegWF r0 → SameObs r0 m0 →
+      ∃ r, (genRegisterAll ops).run r0 = .ok ((), r) ∧ RegWF r ∧
+        SameObs r (ops.foldl (fun m op => register m op.1 op.2) m0) by
+    obtain ⟨r, hrun, hwf, hobs⟩ := hgen ops [] [] (by decide) ⟨fun _ _ => rfl, fun _ _ => Iff.rfl⟩
+    refine ⟨r, hrun, hwf, ?_, ?_⟩
+    · intro node worker
+      rw [getCounters_matches_source r hwf, hobs.1]
+      exact congrArg Int.ofNat (counters_exact ops node worker)
+    · intro node w
+      rw [getWorkers_matches_source r hwf, hobs.2]
+      exact workers_exact ops node w
+  intro ops
+  induction ops with
+  | nil => intro r0 m0 h0 hp; exact ⟨r0, rfl, h0, hp⟩
+  | cons op rest ih =>
+    intro r0 m0 h0 hp
+    obtain ⟨r1, hrun1, hwf1, hperm1⟩ := register_matches_source r0 h0 op.1 op.2
+    obtain ⟨r, hrun, hwf, hobs⟩ := ih r1 (register m0 op.1 op.2) hwf1 (sameObs_register r0 r1 m0 op.1 op.2 hp hperm1)
+    refine ⟨r, ?_, hwf, by simpa using hobs⟩
+    simp only [genRegisterAll, StateT.run_bind, hrun1]
+    exact hrun
+
+/-! ### non-vacuity and boundary of the tie -/
+
+/-- a registry as the code builds it: two nodes, the first visited by two workers -/
+def sampleReg : PyReg := [("n", [("net1", 2), ("net2", 1)]), ("m", [("net1", 1)])]
+
+example : RegWF sampleReg := by decide
+example : RegWF ([] : PyReg) := by decide
+example : flat sampleReg = [(("n", "net1"), 2), (("n", "net2"), 1), (("m", "net1"), 1)] := by decide
+example : genGetCounters sampleReg (some "n") none = 3 := by decide
+example : genGetCounters sampleReg none (some "net1") = 3 := by decide
+example : genGetWorkers sampleReg none = ["net1", "net2", "net1"] := by decide
+/-- a new worker of a known node: the source files it inside the node's dictionary, the model at the end — the
+permutation of `register_matches_source` is proper -/
+example : (genRegister "n" "net3").run sampleReg
+    = .ok ((), [("n", [("net1", 2), ("net2", 1), ("net3", 1)]), ("m", [("net1", 1)])]) := by rfl
+example : register (flat sampleReg) "n" "net3"
+    = [(("n", "net1"), 2), (("n", "net2"), 1), (("m", "net1"), 1), (("n", "net3"), 1)] := by decide
+/-- `RegWF` cannot be dropped: on a list that is not a dictionary (a node key twice) the source's lookups see the
+first entry only, the model sums both -/
+example : genGetCounters [("n", [("w", 1)]), ("n", [("w", 5)])] (some "n") none = 1
+    ∧ getCounters (flat [("n", [("w", 1)]), ("n", [("w", 5)])]) (some "n") none = 6 := by decide
+/-- the primitives of the pinned stores do raise where Python raises (`register` itself never does) -/
+example : (addCount "n" "w" 1).run [] = .error .keyError := by rfl
 
 end I2N.Props.C16
